@@ -218,6 +218,13 @@ def check_file_route(ctx, cls, factory, text, present=True):
             return
     r = solve.run([F], ['echo'], cp, want_solution=False)
     rv, rval = ref_gate(cls, text)
+    if present and not rv:
+        # the same invalid file value with a prompt available that declines every question: it is still an invalid
+        # input (reported as such), never a missing one
+        r2 = solve.run([F], ['echo'], cp, answer_fn=lambda inp, nb: None, want_solution=False)
+        if not isinstance(r2.exc, hi.InvalidInput) or r2.exc.input_name != 'echo.x':
+            ctx.violation(f'{cls}:file-invalid-not-reported-with-prompt', f'{cls}: text {text!r} is invalid; with a (declining) prompt available the outcome was exc={r2.exc!r} '
+                          f'verdict={r2.verdict} missing={getattr(r2, "unmet_inputs", None)} prompts={r2.trace.prompts}', dict(case, prompt='declining'))
     if not present:
         if received or r.exc is not None or r.verdict or 'echo.x' not in r.unmet_inputs:
             ctx.violation(f'{cls}:absent-not-missing', f'{cls}: input absent from the file but received={received} exc={r.exc!r} verdict={r.verdict} missing={getattr(r, "unmet_inputs", None)}', case)
